@@ -344,7 +344,7 @@ func genLegacyText(t *simrt.Tape) []byte {
 	for i := 0; i < na; i++ {
 		fmt.Fprintf(&sb, "%s=%s\n", names[t.Choose(K, len(names))], vals[t.Choose(K, len(vals))])
 	}
-	files := []string{"/bin/prog", "/$dir/bin/prog.$buildid", "/$dirname/$build/prog", "/srv/$b/$buildid/prog", "/lib/libc-$build.so"}
+	files := []string{"/bin/prog", "/$dir/bin/prog.$buildid", "/$dirname/$build/prog", "/srv/$b/$buildid/prog", "/lib/libc-$build.so", "/anon_hugepage (deleted)", "(deleted)", "[vdso]"}
 	fmt.Fprintf(&sb, "00400000-00500000 r-xp 00000000 00:00 0          %s\n", files[t.Choose(K, len(files))])
 	if t.Bool(K, 40) {
 		fmt.Fprintf(&sb, "00500000-00600000 r-xp 00000000 00:00 0          %s\n", files[t.Choose(K, len(files))])
